@@ -283,10 +283,78 @@ func (s *Script) declareFun(name string, args []string, ret string) {
 	s.lines = append(s.lines, fmt.Sprintf("(declare-fun %s %s)", name, sig))
 }
 
+// sanitizePatterns removes :pattern annotations whose terms contain boolean structure (ite, and,
+// or, not), which solvers reject or ignore with warnings; the quantifier then gets automatic triggers.
+func sanitizePatterns(t string) string {
+	if !strings.Contains(t, ":pattern") {
+		return t
+	}
+	var out strings.Builder
+	i := 0
+	for i < len(t) {
+		j := strings.Index(t[i:], "(! ")
+		if j < 0 {
+			out.WriteString(t[i:])
+			break
+		}
+		j += i
+		// find the matching close paren of "(! ... )"
+		depth := 0
+		end := -1
+		inBar := false
+		for k := j; k < len(t); k++ {
+			c := t[k]
+			if inBar {
+				if c == '|' {
+					inBar = false
+				}
+				continue
+			}
+			switch c {
+			case '|':
+				inBar = true
+			case '(':
+				depth++
+			case ')':
+				depth--
+				if depth == 0 {
+					end = k
+				}
+			}
+			if end >= 0 {
+				break
+			}
+		}
+		if end < 0 {
+			out.WriteString(t[i:])
+			break
+		}
+		inner := t[j+3 : end] // BODY :pattern (...)
+		pi := strings.LastIndex(inner, " :pattern ")
+		if pi < 0 {
+			out.WriteString(t[i : end+1])
+			i = end + 1
+			continue
+		}
+		body := sanitizePatterns(inner[:pi])
+		pat := inner[pi+len(" :pattern "):]
+		bad := strings.Contains(pat, "(ite ") || strings.Contains(pat, "(and ") || strings.Contains(pat, "(or ") || strings.Contains(pat, "(not ") || strings.Contains(pat, "(=> ")
+		out.WriteString(t[i:j])
+		if bad {
+			out.WriteString(body)
+		} else {
+			out.WriteString("(! " + body + " :pattern " + pat + ")")
+		}
+		i = end + 1
+	}
+	return out.String()
+}
+
 func (s *Script) assert(t string) {
 	if t == "true" {
 		return
 	}
+	t = sanitizePatterns(t)
 	s.lines = append(s.lines, "(assert "+t+")")
 }
 
